@@ -74,6 +74,46 @@ def run_refusals(case, rec):
     rec.nt(n_ref >= 1)
 
 
+def run_collision_routes(case, rec):
+    """Every colliding operation the harness can construct from a state (all
+    routes of C03) must leave the tree exactly as it was when it is refused."""
+    from checks.c03_sibling_unique import collision_ops
+
+    eng = Engine(case["spec"], typed=case.get("typed", False), spec2=case.get("spec2"), known=engine_known(rec))
+    for op in case["ops"]:
+        eng.step(op, check_unchanged=False)
+        if all_invariants(eng.tree):
+            rec.cls("abandoned:prefix-broke-invariant")
+            return
+    per_route = {}
+    for route, op in collision_ops(eng):
+        per_route.setdefault(route, []).append(op)
+    k = case.get("pick", 0)
+    n = 0
+    for route, ops in sorted(per_route.items()):
+        for op in (ops[k % len(ops)], ops[(k + 1) % len(ops)]):
+            plan = eng.plan(op)
+            if plan.status != "refuse":
+                continue
+            size = eng.model.count()
+            out = eng.step(op, check_unchanged=True)
+            rec.evals += 1
+            if out.raised is None:
+                continue  # not refused at all: C03's subject
+            rec.cls("route=" + route)
+            if size >= 3:
+                n += 1
+            for cat, bucket, detail in out.events:
+                if cat == "changed-after-refusal":
+                    rec.fail(bucket.replace("state-changed-after-refusal:", "state-changed-after-refusal:route:"), {"op": op, "raised": repr(out.raised)[:120]})
+                    return
+            inv = all_invariants(eng.tree)
+            if inv:
+                rec.fail(f"refusal:route:{route}:invariant:{inv[0][0]}", {"op": op, "detail": inv[0][1]})
+                return
+    rec.nt(n >= 1)
+
+
 # ==================================================================================
 # (b) callback faults
 # ==================================================================================
@@ -434,7 +474,14 @@ def fault_cases(draw, tier):
     return {"spec": spec, "accept": accept}
 
 
+def route_cases(tier):
+    from checks.c03_sibling_unique import hyp_routes
+
+    return hyp_routes(tier)
+
+
 PARTS = [
     Part("refusals", run_refusals, strategy=refusal_cases, n={"quick": 300, "thorough": 30000}),
+    Part("collision-routes", run_collision_routes, strategy=route_cases, n={"quick": 300, "thorough": 20000}),
     Part("faults", run_faults, strategy=fault_cases, n={"quick": 40, "thorough": 3000}),
 ]
